@@ -118,6 +118,10 @@ SIBLINGS = [
      {"states": ["a.h"], "alg_states": ["a.qin", "a.level", "b.h", "b.qin", "b.level"], "inputs": []}, ["der(a.h)"]),
     ("model M model Body Real T; Real q; equation q = 1; end Body; model Heated extends Body; equation der(T) = q; end Heated; model Fixed extends Body; equation T = q; end Fixed; Heated hot; Fixed cold; end M;",
      {"states": ["hot.T"], "alg_states": ["hot.q", "cold.T", "cold.q"], "inputs": []}, ["der(hot.T)"]),
+    # inputs / outputs of a COMPONENT declared with a type derived from an elementary type: only top-level inputs are inputs
+    ("model M type Voltage = Real(unit = \"V\"); model F input Voltage v; output Voltage y; Real s; equation der(s) = v; y = s; end F; "
+     "F f1; input Voltage u; output Voltage z; equation f1.v = u; z = f1.y; end M;",
+     {"states": ["f1.s"], "alg_states": ["f1.v", "f1.y", "z"], "inputs": ["u"]}, ["der(f1.s)"]),
 ]
 
 
